@@ -798,6 +798,24 @@ class BuiltinCalls:
             idx = Num(kinds=INT, rng=Interval(0.0, max(hi - 1, 0) if hi < INF else INF, False, hi == INF), deg=F0, sym=("idx", ivar("k")))
             return Seq(Length(term, lo, hi), idx, "k", None, None, frozenset(), "iter")
         lo_n, hi_n = nums[0], nums[1]
+        if len(nums) >= 3:
+            # range(start, stop, step): exact when all three are integer constants, otherwise only "some integers"
+            cs = [n_.const for n_ in nums[:3]]
+            if all(isinstance(c_, int) and not isinstance(c_, bool) for c_ in cs) and cs[2] != 0:
+                vals = list(range(cs[0], cs[1], cs[2]))
+                if len(vals) <= 4:
+                    items = tuple(replace(lift_const(i), deg=F0) for i in vals)
+                    elem = Bottom()
+                    for x in items:
+                        elem = join_val(elem, x)
+                    return Seq(Length.const(len(items)), elem if items else Top("empty"), "k", items, None, frozenset(), "iter")
+                return Seq(Length.const(len(vals)), Num(kinds=INT, rng=Interval(float(min(vals)), float(max(vals)), False, False), deg=F0), "k", None, None, frozenset({"range", "reordered"}), "iter")
+            if isinstance(cs[2], int) and cs[2] == 0:
+                I.do_raise(state, "ValueError", node, implicit=True, mro=("ValueError", "Exception"))
+                return Bottom()
+            lo_b = min(x.rng.lo for x in nums[:2]) if all(x.rng is not None for x in nums[:2]) else -INF
+            hi_b = max(x.rng.hi for x in nums[:2]) if all(x.rng is not None for x in nums[:2]) else INF
+            return Seq(Length(None, 0, INF), Num(kinds=INT, rng=Interval(lo_b, hi_b, False, False), deg=F0, prov=_prov(*nums)), "k", None, None, frozenset({"range", "reordered"}), "iter")
         if len(nums) == 2 and isinstance(lo_n.const, int) and isinstance(hi_n.const, int) and not isinstance(lo_n.const, bool) and 0 <= hi_n.const - lo_n.const <= 4:
             items = tuple(replace(lift_const(i), deg=F0) for i in range(lo_n.const, hi_n.const))
             elem = Bottom()
